@@ -23,17 +23,28 @@ import tempfile
 from datetime import timedelta, timezone
 
 from . import common
+from . import c03_hist as hist
 from . import floatcases as fc
 from . import store_hist as sh
+from .c03_hist import OFFS, aware, floor_ms, simple_script, window_queries  # noqa: F401
 from .common import Check
-from .evutil import BASE, dt, us_of_dt, us_of_td
+from .evutil import BASE
 
 RULE = ("deterministic boundary corpus (all placements of two intervals incl. zero-length, touching, nested and "
         "overlapping ones on a 1 ms grid that straddles a whole second, every window whose edges are grid points "
         "+/- {0, 1, 500, 999} us, open-ended, zero-width and sub-millisecond windows, limits -1,0,1,2,n) then seeded "
         "random buckets of 0-8 events (durations 0 .. 24 h, a separate out-of-domain stream > 24 h for correspondence "
         "only) with windows whose edges sit within +/-3 ms of event edges at us resolution, tz offsets -12h..+14h, "
-        "limits -5,-1,0,1,2,n,n+1; every case on memory, sqlite and peewee through Bucket.get / Bucket.get_eventcount; "
+        "limits -5,-1,0,1,2,n,n+1; then SCRIPTS (harness/c03_hist.py): write histories interleaved with window reads - "
+        "deterministic: one of four events moved to every other place on the time axis (before all, tie with a neighbour, "
+        "between neighbours, after all) by every write path (replace, insert / bulk insert of an event carrying the id, "
+        "mixed bulk call, delete + re-insert, replace_last), read before and after, then a second move; several storage "
+        "instances of one back end alive in the process (peewee: one after the other) holding the same bucket ids created "
+        "in different orders / deleted and re-created, reads interleaved between instances and buckets; seeded random "
+        "scripts over 1-3 instances x 1-3 buckets (insert, bulk insert / upsert, replace with a new timestamp, "
+        "replace_last, delete, re-insert, delete_bucket + create, reads between the writes); the expected bucket "
+        "contents come from the writes alone (every written event has a label of its own); every case on memory, sqlite "
+        "and peewee through Bucket.get / Bucket.get_eventcount; "
         "non-trivial = a windowed query on a bucket of >= 2 events that keeps some and drops some")
 
 DELTA = 2000
@@ -44,30 +55,10 @@ SHARP = {"memory": 0, "sqlite": 1}      # us; peewee's resolution is the stateme
 
 
 # ---------------------------------------------------------------------------
-# cases
-#   case  = {"events": [[ts, dur, label] ...], "queries": [q ...], "stream": str}
+# cases: scripts, see harness/c03_hist.py.  The generators of this file produce the round-1 shape
+#   {"events": [[ts, dur, label] ...], "queries": [q ...], "stream": str}    (-> simple_script)
 #   q     = ["get", limit, ws|None, we|None, off_min_s, off_min_e] | ["count", ws, we, off_s, off_e]
 #           | ["round", utc, off_us]       (the rounding alone; off_us may be sub-millisecond)
-
-
-def floor_ms(t):
-    return t - t % 1000
-
-
-def aware(us, off_min):
-    return dt(us).astimezone(timezone(timedelta(minutes=off_min)))
-
-
-OFFS = [0, 0, 0, -720, 840, 330, 345, -210, 60, 765]
-
-
-def window_queries(ws, we, limits, rng=None):
-    o1 = rng.choice(OFFS) if rng else 0
-    o2 = rng.choice(OFFS) if rng else 0
-    qs = [["get", -1, ws, we, o1, o2], ["count", ws, we, o1, o2]]
-    for k in limits:
-        qs.append(["get", k, ws, we, o1, o2])
-    return qs
 
 
 def boundary_cases():
@@ -177,71 +168,6 @@ def round_case(rng, n):
 # the implementation
 
 
-def _ev_canon(e):
-    return [e.id, us_of_dt(e.timestamp), us_of_td(e.duration), sh.label_of_data(e.data)]
-
-
-def _parse_ms_text(s):
-    """'YYYY-MM-DD HH:MM:SS.mmm+00:00' -> microseconds since the epoch."""
-    from datetime import datetime
-    return us_of_dt(datetime.strptime(s[:23], "%Y-%m-%d %H:%M:%S.%f").replace(tzinfo=timezone.utc))
-
-
-def run_impl_case(case, backend, tmpdir, n):
-    """-> {"stored": [[id, ts, dur, label] ...] (unwindowed read, ascending id), "answers": [...],
-           "table": [[ts, dur, end_ms] ...] (peewee)}"""
-    from aw_core.models import Event
-    from aw_datastore import Datastore
-    st = sh.open_storage(backend, tmpdir, n)
-    try:
-        ds = Datastore(lambda testing: st, testing=True)
-        ds.create_bucket("b", "t", "c", "h", created=dt(BASE))
-        bucket = ds["b"]
-        for t, d, x in case["events"]:
-            st.insert_one("b", Event(timestamp=dt(t), duration=timedelta(microseconds=d), data=sh.data_of(x)))
-        seen = {}
-        orig = st.get_events
-
-        def spy(bucket_id, limit, starttime=None, endtime=None):
-            seen["edges"] = [None if starttime is None else us_of_dt(starttime),
-                             None if endtime is None else us_of_dt(endtime)]
-            return orig(bucket_id, limit, starttime, endtime)
-        st.get_events = spy
-        stored = sorted(_ev_canon(e) for e in bucket.get(-1))
-        answers = []
-        for q in case["queries"]:
-            seen.clear()
-            try:
-                if q[0] == "get":
-                    _, limit, ws, we, o1, o2 = q
-                    r = bucket.get(limit, None if ws is None else aware(ws, o1), None if we is None else aware(we, o2))
-                    answers.append(["ok", [_ev_canon(e) for e in r], seen.get("edges")])
-                elif q[0] == "count":
-                    _, ws, we, o1, o2 = q
-                    r = bucket.get_eventcount(None if ws is None else aware(ws, o1),
-                                              None if we is None else aware(we, o2))
-                    answers.append(["ok", int(r)])
-                else:
-                    _, utc, off = q
-                    d = dt(utc).astimezone(timezone(timedelta(microseconds=off)))
-                    bucket.get(1, d, d)
-                    answers.append(["ok", seen.get("edges")])
-            except Exception as ex:  # noqa: BLE001
-                answers.append(["err", type(ex).__name__])
-        table = []
-        if backend == "peewee":
-            from aw_datastore.storages.peewee import EventModel, dt_plus_duration
-            rows = (EventModel.select(EventModel.id, dt_plus_duration(EventModel.timestamp, EventModel.duration))
-                    .tuples())
-            byid = {w[0]: w for w in stored}
-            for i, txt in rows:
-                if i in byid:
-                    table.append([byid[i][1], byid[i][2], _parse_ms_text(txt)])
-        return {"stored": stored, "answers": answers, "table": table}
-    finally:
-        sh.close_storage(backend, st, tmpdir, n)
-
-
 _WORK = {}
 
 
@@ -257,7 +183,7 @@ def _worker(args):
                 if case["stream"] == "round" and be != "memory":
                     continue
                 try:
-                    r[be] = run_impl_case(case, be, tmpdir, n)
+                    r[be] = hist.run_impl_script(case, be, tmpdir, n)
                 except Exception as ex:  # noqa: BLE001
                     r[be] = {"crash": f"{type(ex).__name__}: {ex}"}
             out.append(r)
@@ -300,27 +226,30 @@ def meets(e, ws, we, m):
 
 def oracle_get(backend, stored, q, ans, unlimited, dev):
     """None, or (signature, description) when the implementation's answer violates the statement.
-    stored: {id: [id, ts, dur, label]}; unlimited: the same back end's limit=-1 answer for this
-    window (list of events) or None."""
+    stored: {label: [id | None, ts, dur, label]} = what the bucket holds according to the writes
+    (every written event carries a label of its own; id None = not known yet); unlimited: the same
+    back end's limit=-1 answer for this window on the same bucket contents (list of events) or None."""
     _, limit, ws, we, _, _ = q
     if ans[0] != "ok":
         return ("raised", f"the read raised {ans[1]}")
     got = ans[1]
     ids = [e[0] for e in got]
-    if len(set(ids)) != len(ids):
-        return ("duplicate", f"an event is returned twice: {ids}")
+    labs = [e[3] for e in got]
+    if len(set(ids)) != len(ids) or len(set(labs)) != len(labs):
+        return ("duplicate", f"an event is returned twice: ids {ids}, labels {labs}")
     for e in got:
-        if e[0] not in stored:
-            return ("unknown-event", f"returned event {e} is not a stored event")
+        if e[3] not in stored:
+            return ("unknown-event", f"returned event {e} is not an event of this bucket (it holds "
+                                     f"{sorted(stored.values(), key=lambda v: v[1])})")
     ws_r = None if ws is None else floor_ms(ws)
     we_r = None if we is None else floor_ms(we) + 1000
     # order: stored timestamps non-increasing (and the returned ones as well)
-    sts = [stored[i][1] for i in ids]
+    sts = [stored[x][1] for x in labs]
     if any(a < b for a, b in zip(sts, sts[1:])) or any(a[1] < b[1] for a, b in zip(got, got[1:])):
         return ("order", f"not ordered by timestamp descending: {sts}")
     # which events
     for e in got:
-        s = stored[e[0]]
+        s = stored[e[3]]
         if not meets(s, ws, we, -DELTA):
             return ("outside", f"returned {s} lies outside the window [{ws},{we}] by more than {DELTA} us")
         out_by = max(0 if ws_r is None else ws_r - (s[1] + s[2]), 0 if we_r is None else s[1] - we_r)
@@ -331,7 +260,7 @@ def oracle_get(backend, stored, q, ans, unlimited, dev):
     sharp = SHARP.get(backend)
     if sharp is not None:
         for e in got:
-            s = stored[e[0]]
+            s = stored[e[3]]
             if not meets(s, ws_r, we_r, -sharp):
                 return ("edge-resolution", f"returned {s} lies outside the rounded window [{ws_r},{we_r}] "
                                            f"(closed intervals, {backend} resolution {sharp} us)")
@@ -340,7 +269,7 @@ def oracle_get(backend, stored, q, ans, unlimited, dev):
             return ("limit0", "limit 0 returned events")
     elif limit < 0:
         for s in stored.values():
-            if s[2] <= DAY and s[0] not in ids:
+            if s[2] <= DAY and s[3] not in labs:
                 if meets(s, ws, we, DELTA):
                     return ("missing", f"stored {s} reaches into [{ws},{we}] by {DELTA} us or more and is not returned")
                 if sharp is not None and meets(s, ws, we, sharp):
@@ -351,30 +280,44 @@ def oracle_get(backend, stored, q, ans, unlimited, dev):
                                 10 ** 18 if we_r is None else we_r - s[1])
                     dev[backend + ":inside-yet-omitted"] = max(dev.get(backend + ":inside-yet-omitted", 0), in_by)
     else:
+        # independent of any other read: among the stored events that certainly reach into the window
+        # the limit must keep the newest ones
+        must = sorted((s[1] for s in stored.values() if s[2] <= DAY and meets(s, ws, we, DELTA)), reverse=True)
+        if len(got) < min(limit, len(must)):
+            return ("limit-length", f"limit {limit}: {len(got)} events, {len(must)} stored events reach into "
+                                    f"[{ws},{we}] by {DELTA} us or more")
+        if len(got) > limit:
+            return ("limit-length", f"limit {limit}: {len(got)} events")
+        if got and len(got) == limit:
+            oldest = min(sts)
+            for s in stored.values():
+                if s[2] <= DAY and s[3] not in labs and s[1] > oldest and meets(s, ws, we, DELTA):
+                    return ("limit-not-newest", f"limit {limit} keeps an event of {oldest} and omits the newer {s}")
         if unlimited is not None:
-            uids = [e[0] for e in unlimited]
+            ulabs = [e[3] for e in unlimited]
             if len(got) != min(limit, len(unlimited)):
                 return ("limit-length", f"limit {limit}: {len(got)} events, the unlimited read has {len(unlimited)}")
-            if not set(ids) <= set(uids):
+            if not set(labs) <= set(ulabs):
                 return ("limit-foreign", "limited read returns an event the unlimited read does not")
             if got:
                 oldest = min(sts)
                 for u in unlimited:
-                    if u[0] not in ids and stored[u[0]][1] > oldest:
+                    if u[3] not in labs and u[3] in stored and stored[u[3]][1] > oldest:
                         return ("limit-not-newest",
-                                f"limit {limit} keeps an event of {oldest} and omits the newer {stored[u[0]]}")
+                                f"limit {limit} keeps an event of {oldest} and omits the newer {stored[u[3]]}")
     # contents
     for e in got:
-        s = stored[e[0]]
+        s = stored[e[3]]
+        want_id = e[0] if s[0] is None else s[0]
         if backend != "peewee":
-            if e != s:
+            if e != [want_id] + s[1:]:
                 return ("changed", f"returned {e} differs from the stored {s}")
         else:
             if e[2] < 0:
                 return (NEG_DUR_SIG, f"returned {e} has a negative duration (stored {s}, window from {ws_r})")
             t2 = s[1] if ws_r is None else max(s[1], ws_r)
             e2 = s[1] + s[2] if we_r is None else min(s[1] + s[2], we_r)
-            if e != [s[0], t2, max(0, e2 - t2), s[3]]:
+            if e != [want_id, t2, max(0, e2 - t2), s[3]]:
                 return ("clip", f"returned {e} is not the stored {s} cut to [{ws_r},{we_r}]")
     return None
 
@@ -403,7 +346,10 @@ def oracle_count(backend, stored, q, ans, unlimited):
 def sq_param_terms(case):
     """Gallina terms (one per query with an edge) for the float parameters of the sqlite queries."""
     terms = {}
-    for q in case["queries"]:
+    for step in case["script"]:
+        if step[0] != "q":
+            continue
+        q = step[3]
         if q[0] == "get":
             key = ("r", q[2], q[3])
             terms[key] = f"sq_params_read {fc.coq_optz(q[2])} {fc.coq_optz(q[3])}"
@@ -429,19 +375,21 @@ def decode_params(w):
     return out
 
 
-def wire_case(case, backend, params, table):
-    qs = []
-    for q in case["queries"]:
-        if q[0] == "get":
-            plo, phi = params.get(("r", q[2], q[3]), ([], [])) if backend == "sqlite" else ([], [])
-            qs.append([0, q[1], common.opt(q[2]), common.opt(q[3]), plo, phi])
-        elif q[0] == "count":
-            plo, phi = params.get(("c", q[1], q[2]), ([], [])) if backend == "sqlite" else ([], [])
-            qs.append([1, common.opt(q[1]), common.opt(q[2]), plo, phi])
-        else:
-            qs.append([2, q[1], q[2]])
-    evs = [[[], t, d, x] for t, d, x in case["events"]]
-    return common.sx([sh.BACKEND_CODE[backend], evs, qs, table])
+def wire_query(q, backend, params):
+    if q[0] == "get":
+        plo, phi = params.get(("r", q[2], q[3]), ([], [])) if backend == "sqlite" else ([], [])
+        return [0, q[1], common.opt(q[2]), common.opt(q[3]), plo, phi]
+    if q[0] == "count":
+        plo, phi = params.get(("c", q[1], q[2]), ([], [])) if backend == "sqlite" else ([], [])
+        return [1, common.opt(q[1]), common.opt(q[2]), plo, phi]
+    return [2, q[1], q[2]]
+
+
+def wire_store(store, backend, params):
+    """One storage instance of a run (its concrete steps: wire ops with the ids the store handed out,
+    queries) -> the driver's case."""
+    steps = [[0, st[1]] if st[0] == 0 else [1, st[1], wire_query(st[2], backend, params)] for st in store["steps"]]
+    return common.sx([sh.BACKEND_CODE[backend], steps, store["table"]])
 
 
 def model_answer(q, m):
@@ -462,11 +410,14 @@ def model_answer(q, m):
 # ---------------------------------------------------------------------------
 
 
-def replay_obj(case, backend, qi, impl=None, model=None):
-    return {"backend": backend, "events": case["events"], "query": case["queries"][qi], "impl": impl, "model": model,
+def replay_obj(case, backend, at, impl=None, model=None, stored=None):
+    return {"backend": backend, "nstores": case["nstores"], "script": case["script"][:at + 1], "step": at,
+            "query": case["script"][at][1:], "stored": stored, "impl": impl, "model": model,
             "how": "PYTHONPATH=$VERIF_REPO:/verif /venv/bin/python -m harness.c03_replay <this file | json of {backend, "
-                   "events, query}>  (events [ts_us, dur_us, label] inserted one by one into a fresh bucket, then the "
-                   "query through Bucket.get / Bucket.get_eventcount; prints the answer and the oracle's verdict)"}
+                   "nstores, script}>  (script steps [\"w\", store, op] / [\"q\", store, bucket, query], see "
+                   "harness/c03_hist.py: run on `nstores` fresh storage instances of the back end alive together, the "
+                   "last step is the query through Bucket.get / Bucket.get_eventcount; prints the answer, what the "
+                   "bucket holds according to the writes, and the oracle's verdict)"}
 
 
 def main(argv=None):
@@ -490,7 +441,17 @@ def main(argv=None):
     cases += [random_case(ck.rng) for _ in range(n_random)]
     cases += [random_case(ck.rng, long_stream=True) for _ in range(n_random // 6)]
     cases += [round_case(ck.rng, 60) for _ in range(4 if quick else 100)]
+    cases = [simple_script(c["events"], c["queries"], c["stream"]) for c in cases]
+    # scripts: write histories between the reads, several buckets, several storage instances
+    hb = hist.history_boundary_cases()
+    cases += hb[ck.seed % 3::3] if quick else hb
+    cases += hist.multi_boundary_cases()
+    n_scripts = 70 if quick else 1500
+    cases += [hist.random_script(ck.rng, 1) for _ in range(n_scripts)]
+    cases += [hist.random_script(ck.rng, ck.rng.choice([2, 2, 3])) for _ in range(n_scripts // 2)]
+    import time as _t; _t0=_t.time(); print('T prove+build', round(_t0-ck.t0,1), file=sys.stderr)
     results = run_impl_batch(cases)
+    print('T impl', round(_t.time()-_t0,1), file=sys.stderr); _t0=_t.time()
 
     dev = {}
     max_sql_dev = 0
@@ -499,59 +460,74 @@ def main(argv=None):
 
     # --- property oracle on the implementation
     for ci, (case, r) in enumerate(zip(cases, results)):
+        script = case["script"]
         for be, run in r.items():
             if "crash" in run:
-                ck.disagreement(be, f"harness could not drive the storage: {run['crash']}", {"events": case["events"]})
+                ck.disagreement(be, f"harness could not drive the storage: {run['crash']}",
+                                {"backend": be, "nstores": case["nstores"], "script": script})
                 continue
             if case["stream"] == "round":
                 continue
-            stored = {w[0]: w for w in run["stored"]}
-            want = sorted([t, d, x] for t, d, x in case["events"])
-            if sorted(w[1:] for w in run["stored"]) != want:
-                # the unwindowed read is C01/C02's subject; here it only anchors ids
-                ck.disagreement(be, "unwindowed read does not return the inserted events (C01/C02 territory)",
-                                {"events": case["events"], "read": run["stored"]})
-                continue
+            recs = run["recs"]
+            for store in run["stores"]:
+                if store is not None and store["broken"]:
+                    # a well-formed write raised: the account of what the bucket holds ends here (C02 territory)
+                    ck.disagreement(be, f"a write of a well-formed history failed: {store['broken']}",
+                                    {"backend": be, "nstores": case["nstores"], "script": script})
             unlimited = {}
-            for q, a in zip(case["queries"], run["answers"]):
-                if q[0] == "get" and q[1] < 0 and a[0] == "ok":
-                    unlimited[(q[2], q[3])] = a[1]
-            for qi, (q, a) in enumerate(zip(case["queries"], run["answers"])):
+            for step, rec in zip(script, recs):
+                if step[0] == "q" and step[3][0] == "get" and step[3][1] < 0 and rec[1][0] == "ok":
+                    unlimited[(step[1], step[2], rec[3], step[3][2], step[3][3])] = rec[1][1]
+            for at, (step, rec) in enumerate(zip(script, recs)):
+                if step[0] != "q":
+                    if rec[1] is not None:
+                        ck.count("write:" + sh.OPNAME[rec[1][0]])
+                    continue
+                _, si, b, q = step
+                _, a, snap, epoch, broken = rec
+                if broken or snap is None:
+                    continue
+                stored = {w[3]: w for w in snap}
                 if q[0] == "get":
-                    bad = oracle_get(be, stored, q, a, unlimited.get((q[2], q[3])), dev)
+                    bad = oracle_get(be, stored, q, a, unlimited.get((si, b, epoch, q[2], q[3])), dev)
                     kept = len(a[1]) if a[0] == "ok" else 0
                     windowed = q[2] is not None or q[3] is not None
-                    ck.note_case([be, case["events"], q],
-                                 nontrivial=windowed and len(stored) >= 2 and 0 < kept < len(stored))
+                    ck.note_case([be, snap, q], nontrivial=windowed and len(stored) >= 2 and 0 < kept < len(stored))
                     ck.count(f"{be}:get:" + ("open-start" if q[2] is None and q[3] is not None else
                                              "open-end" if q[3] is None and q[2] is not None else
                                              "unwindowed" if q[2] is None else
                                              "zero-width" if q[2] == q[3] else
                                              "sub-ms" if q[3] - q[2] < 1000 else "two-edged"))
                     ck.count("limit:" + ("neg" if q[1] < 0 else "0" if q[1] == 0 else "pos"))
+                    if epoch > 1 + len(stored) and case["stream"] in ("history", "multi"):
+                        ck.count("read-after-rewrite")
                 else:
-                    bad = oracle_count(be, stored, q, a, unlimited.get((q[1], q[2])))
-                    ck.note_case([be, case["events"], q], nontrivial=False)
+                    bad = oracle_count(be, stored, q, a, unlimited.get((si, b, epoch, q[1], q[2])))
+                    ck.note_case([be, snap, q], nontrivial=False)
                     ck.count(f"{be}:count")
                 if bad:
                     sig, desc = bad
                     sig = sig if sig.startswith("C03:") else f"C03:{be}:{sig}"
-                    ck.failing_input(sig, f"{be}: {desc}", replay_obj(case, be, qi, impl=a))
+                    ck.failing_input(sig, f"{be}: {desc}", replay_obj(case, be, at, impl=a, stored=snap))
             if be == "peewee":
-                for t, d, em in run["table"]:
-                    n_rows += 1
-                    if d <= DAY and abs(em - (t + d)) > max_sql_dev:
-                        max_sql_dev = abs(em - (t + d))
-                        sql_dev_at = [t, d, em]
+                for store in run["stores"]:
+                    for t, d, em in (store["table"] if store else []):
+                        n_rows += 1
+                        if d <= DAY and abs(em - (t + d)) > max_sql_dev:
+                            max_sql_dev = abs(em - (t + d))
+                            sql_dev_at = [t, d, em]
         ck.count("stream:" + case["stream"])
-        ck.count("bucket-size:%d" % len(case["events"]))
-        if len(ck.samples) < 5 and case["stream"] == "random" and len(case["events"]) >= 3:
-            ck.sample({"events": case["events"], "query": case["queries"][0],
-                       "answers": {be: r[be]["answers"][0] for be in r if "answers" in r[be]}})
+        ck.count("instances:%d" % case["nstores"])
+        if len(ck.samples) < 5 and case["stream"] in ("random", "history", "multi") and len(script) >= 8 \
+                and len(ck.samples) < {"random": 2, "history": 4, "multi": 5}[case["stream"]]:
+            at = max(i for i, st in enumerate(script) if st[0] == "q")
+            ck.sample({"script": script if len(script) < 40 else script[:12] + ["..."] + script[-6:], "step": at,
+                       "answers": {be: r[be]["recs"][at][1] for be in r if "recs" in r[be]}})
     if max_sql_dev > 1000:
         ck.broken.append(f"Section hypothesis sql_end_err violated on the engine: |sql_end_ms - (ts+dur)| = {max_sql_dev} "
                          f"at {sql_dev_at}")
 
+    print('T oracle', round(_t.time()-_t0,1), file=sys.stderr); _t0=_t.time()
     # --- correspondence with the model
     if have_driver:
         # float parameters of the sqlite queries, evaluated inside Coq
@@ -576,31 +552,47 @@ def main(argv=None):
                       for edge, v in ((k[1], a), (k[2], b)) if v and edge is not None and k[0] == "c" and v[0] != edge)
         ck.coverage["sqlite_float_params"] = {"distinct_queries": len(keys), "count_queries_with_inexact_param": inexact}
 
+        print('T floatparams', round(_t.time()-_t0,1), file=sys.stderr); _t0=_t.time()
         wires, index = [], []
         for ci, (case, r) in enumerate(zip(cases, results)):
             for be, run in r.items():
                 if "crash" in run or (be == "sqlite" and not float_ok):
                     continue
-                wires.append(wire_case(case, be, params, run["table"]))
-                index.append((ci, be))
+                for si, store in enumerate(run["stores"]):
+                    if store is not None:
+                        wires.append(wire_store(store, be, params))
+                        index.append((ci, be, si))
         outs = common.run_driver("C03", wires)
-        for (ci, be), mo in zip(index, outs):
+        for (ci, be, si), mo in zip(index, outs):
             case, run = cases[ci], results[ci][be]
-            if mo == [-999] or len(mo) != len(case["queries"]):
-                ck.disagreement(be, "driver could not decode the case", {"events": case["events"]})
+            store = run["stores"][si]
+            if mo == [-999] or len(mo) != len(store["steps"]):
+                ck.disagreement(be, "driver could not decode the case",
+                                {"backend": be, "nstores": case["nstores"], "script": case["script"]})
                 continue
-            for qi, (q, m, a) in enumerate(zip(case["queries"], mo, run["answers"])):
+            for st, at, m in zip(store["steps"], store["where"], mo):
+                rec = run["recs"][at]
                 if m == [-999]:
-                    ck.disagreement(be, "driver could not decode a query", replay_obj(case, be, qi))
+                    ck.disagreement(be, "driver could not decode a step (peewee: a stored row without a measured end "
+                                        "instant)", replay_obj(case, be, at))
                     break
-                ma = model_answer(q, m)
-                if ma != a:
-                    ck.disagreement(be, f"{q}: model and {be} differ", replay_obj(case, be, qi, impl=a, model=ma))
+                if st[0] == 0:
+                    if m != rec[2]:
+                        ck.disagreement(be, f"{sh.describe(st[1])}: model {m} and {be} {rec[2]} differ",
+                                        replay_obj(case, be, at, impl=rec[2], model=m))
+                        break
+                    continue
+                ma = model_answer(st[2], m)
+                if ma != rec[1]:
+                    ck.disagreement(be, f"{st[2]} on bucket {st[1]} after {rec[3]} writes: model and {be} differ",
+                                    replay_obj(case, be, at, impl=rec[1], model=ma, stored=rec[2]))
                     break
 
+        print('T driver', round(_t.time()-_t0,1), file=sys.stderr); _t0=_t.time()
         # the float expressions of Bucket.get themselves (in Coq) against the forwarded edges
-        rq = [(q, a) for case, r in zip(cases, results) if case["stream"] == "round" and "answers" in r.get("memory", {})
-              for q, a in zip(case["queries"], r["memory"]["answers"])][:400 if quick else 4000]
+        rq = [(step[3], rec[1]) for case, r in zip(cases, results)
+              if case["stream"] == "round" and "recs" in r.get("memory", {})
+              for step, rec in zip(case["script"], r["memory"]["recs"]) if step[0] == "q"][:400 if quick else 4000]
         if rq and float_ok:
             try:
                 outs = fc.run_cases("C03", "From AwVerif Require Import Base.Prelude Model.PyFloat Model.PyFloatWire "
